@@ -94,7 +94,8 @@ type mqCall struct {
 	fireAt  int
 	builtAt int
 	retAt   int
-	built   bool // the build function ran
+	built   bool // the build function ran and put something into a message
+	ran     bool // the build function ran
 	buildNo int  // order in which build functions ran (per peer)
 	ret     bool // AllocateAndBuildMessage returned
 }
@@ -200,7 +201,7 @@ func (s *mq) Build(w *World) {
 	ncalls := 2 + t.Draw(10)
 	for i := 0; i < ncalls; i++ {
 		c := &mqCall{idx: i, peer: s.peers[t.Draw(npeers)].Name, req: t.Draw(3)}
-		c.kind = []string{"block", "block", "ext", "status"}[t.Draw(4)]
+		c.kind = []string{"block", "block", "ext", "status", "block", "nothing"}[t.Draw(6)]
 		switch c.kind {
 		case "block":
 			c.size = unit * uint64([]int{1, 1, 2, 3}[t.Draw(4)])
@@ -215,6 +216,9 @@ func (s *mq) Build(w *World) {
 			}
 		case "ext":
 			c.size = 0
+		case "nothing":
+			// memory is reserved but the callback finds nothing to build (e.g. its response stream was closed meanwhile)
+			c.size = unit + uint64(i)
 		}
 		c.link = cidlink.Link{Cid: mustCid(fmt.Sprintf("mq-op-%d", i))}
 		s.calls = append(s.calls, c)
@@ -353,13 +357,14 @@ func (s *mq) fire(w *World, c *mqCall) {
 	c.size = size
 	go func() {
 		s.pm.AllocateAndBuildMessage(p, size, func(b *messagequeue.Builder) {
-			c.built = true
+			c.ran = true
+			c.built = c.kind != "nothing"
 			c.builtAt = w.Step
 			if size > 0 {
 				// C15 R3: data is never queued without a successful reservation
 				n := 0
 				for _, o := range s.calls {
-					if o.built && o.peer == c.peer && o.size == size {
+					if o.ran && o.peer == c.peer && o.size == size {
 						n++
 					}
 				}
@@ -382,6 +387,9 @@ func (s *mq) fire(w *World, c *mqCall) {
 				b.AddExtensionData(sub.req, ext)
 			case "status":
 				b.AddResponseCode(sub.req, graphsync.PartialResponse)
+			case "nothing":
+				w.Effect("built %d (nothing)", c.idx)
+				return
 			}
 			b.AddBlockData(sub.req, marker{link: c.link, size: c.size, idx: int64(c.idx)})
 			closed := false
@@ -518,7 +526,7 @@ func (s *mq) finalC15(w *World) *Violation {
 				sig += ":unreported-operations"
 			}
 			for _, c := range s.calls {
-				if c.peer == p.Name && c.built && len(s.reportsOf(c)) == 0 && s.builtAcrossShutdown(w, c) {
+				if c.peer == p.Name && c.ran && len(s.reportsOf(c)) == 0 && s.builtAcrossShutdown(w, c) {
 					sig += ":built-into-queue-shutting-down"
 					break
 				}
